@@ -13,6 +13,8 @@ evaluated on the real emitted text:
   M6 layouts-agree       (C16)  READ_STATEMENTS and EXEC_CLASSES declare the same variables with the same initialisers
                                 (modulo which use of a variable is the raw one and which are DUPs)
   M7 rejected-not-dropped(C15)  an instruction is either compiled or raises; no emitted text mentions a lark Tree/Token
+  M9 attributes-match-text (C13) per part: MEM_WRITE iff STOREW, MEM_READ iff LOADW, BRANCH iff the jump flag is set, NEW iff a .new operand is
+                                used, WPRED / WRITE_Pn iff a predicate register is written, COND only with a BRANCH; same in both layouts
   M8 node-well-formed    (C02/C03/C10) the callback postcondition WF(result) of spec/ir.py evaluated on every real node registered
                                 while compiling, plus the conversion class of every Cast (which shipped instructions reach a known finding)
 This supplies the cover evidence that the contracts' preconditions are reached by the shipped input and catches
@@ -258,6 +260,34 @@ def monitor_body(text, is_sub_routine=False, params=()):
     return probs, {"lines": len(body) + 1, "decls": len(decls), "locals": len(locals_w), "not_sort_checked": len(tainted)}, decls
 
 
+def attr_problems(text, meta):
+    """M9 (C13): the attribute list of a part against the text of that same part."""
+    m = set(meta)
+    probs = []
+
+    def iff(attr, has, what):
+        if has and attr not in m:
+            probs.append(f"the text {what} but {attr} is not reported")
+        if attr in m and not has:
+            probs.append(f"{attr} is reported but the text does not {what.replace('contains', 'contain').replace('sets', 'set').replace('writes', 'write').replace('uses', 'use')}")
+    iff("HEX_IL_INSN_ATTR_MEM_WRITE", "STOREW(" in text, "contains a store (STOREW)")
+    iff("HEX_IL_INSN_ATTR_MEM_READ", "LOADW(" in text, "contains a load (LOADW)")
+    iff("HEX_IL_INSN_ATTR_BRANCH", '"jump_flag"' in text, "sets the jump flag")
+    iff("HEX_IL_INSN_ATTR_NEW", bool(re.search(r"_new_op\b|NREG2OP", text)), "uses a .new operand")
+    wp = set(re.findall(r"WRITE_REG\(bundle, &?P(\d)(?:_new)?_op", text))
+    iff("HEX_IL_INSN_ATTR_WPRED", bool(re.search(r"WRITE_REG\(bundle, &?P\w*_op", text)), "writes a predicate register")
+    mp = {x[-1] for x in m if x.startswith("HEX_IL_INSN_ATTR_WRITE_P")}
+    if wp != mp:
+        probs.append(f"explicit predicate writes in the text {sorted(wp)} but WRITE_Pn attributes {sorted(mp)}")
+    if "HEX_IL_INSN_ATTR_COND" in m and "BRANCH(" not in text:
+        probs.append("HEX_IL_INSN_ATTR_COND is reported but the text contains no BRANCH")
+    if not m:
+        probs.append("empty attribute list (NONE expected)")
+    if "HEX_IL_INSN_ATTR_NONE" in m and len(m) > 1:
+        probs.append(f"NONE reported together with {sorted(m - {'HEX_IL_INSN_ATTR_NONE'})}")
+    return probs
+
+
 def _compilers(names=None):
     from rzilcompiler.Compiler import Compiler
     from rzilcompiler.ArchEnum import ArchEnum
@@ -360,6 +390,10 @@ def run_corpus(limit=None, names=None):
         if ra[0] == "ok":
             ent["lines"] = 0
             for k, text in enumerate(ra[1]):
+                if text.strip() != "return NOP();" and k < len(ra[2]):
+                    ent["problems"] += [("M9 attributes-match-text", f"part {k}: {d}") for d in attr_problems(text, ra[2][k])]
+                    if rb[0] == "ok" and k < len(rb[2]) and sorted(rb[2][k]) != sorted(ra[2][k]):
+                        ent["problems"].append(("M9 attributes-match-text", f"part {k}: the two layouts report different attributes {ra[2][k]} / {rb[2][k]}"))
                 probs, st, decls = monitor_body(text)
                 ent["lines"] += st.get("lines", 0)
                 ent["problems"] += [(c, f"part {k}: {d}") for c, d in probs]
@@ -407,7 +441,7 @@ def monitored_run(check, limit=None):
         os.chdir(cwd)
     ins = out["instructions"]
     acc = {n: e for n, e in ins.items() if e["outcome"] == "ok"}
-    clauses = ["M1 decl.shape", "M2 well-sorted", "M3 declared-before-use", "M4 linearity", "M5 returns-sequence", "M6 layouts-agree", "M7 rejected-not-dropped"]
+    clauses = ["M1 decl.shape", "M2 well-sorted", "M3 declared-before-use", "M4 linearity", "M5 returns-sequence", "M6 layouts-agree", "M7 rejected-not-dropped", "M9 attributes-match-text"]
     fails = {c: [] for c in clauses}
     for n, e in list(acc.items()) + [(f"sub-routine {k}", v) for k, v in out["sub_routines"].items()]:
         for c, d in e["problems"]:
